@@ -38,7 +38,7 @@ struct Found {
 }
 
 fn networks(tier: &str) -> Vec<Inst> {
-    let ntrips = if tier == "thorough" { 3 } else { 2 };
+    let ntrips = if tier == "thorough" { 4 } else { 2 };
     let mut out = vec![];
     for shunt in [0u8, 1, 3] {
         for forbid in [0u8, 1] {
